@@ -27,7 +27,11 @@ def _scan_chain(term, fn_name, seed):
         inner = args[2]
         if inner == seed:
             return depth
+        # the next scan resumes *behind* the line break just found: the forward scanner examines the position it is given
+        # (so `p + 1`), the backward scanner starts one byte before it (so `p` itself)
         m2 = re.match(r"^\((.*) \+ 1\)$", inner)
+        if (fn_name == NEXT) != bool(m2):
+            return None
         t = m2.group(1) if m2 else inner
     return None
 
